@@ -21,6 +21,10 @@ checks = {
  "C06": dict(cat="model_checking", ref="DESIGN.md 4 C06",
    text="TLC checks on the specification that DISTINCT keeps exactly the first occurrence of each distinct row (abstract row equality, with rows whose textual fingerprints coincide), that UNION ALL is concatenation, UNION its de-duplication, chains of one kind are associative and LIMIT/OFFSET apply to the combined sequence; every enumerated table / branch combination is replayed against the real library with the exact sequence compared; seeded 1-4 branch chains are trace-validated.",
    tech="TLA+ specification (Genql Dedup/RunQ union, Engine) model-checked with TLC; exported behaviours replayed; recorded executions trace-validated with TLC (EngineTrace)"),
+ "C15": dict(cat="model_checking", ref="DESIGN.md 4 C15",
+   text="TLC checks on GoNum.tla that the comparison as coded returns only -1/0/1, equals the order the statement prescribes (mathematical order across all twelve Go numeric kinds, byte-wise on strings, decimal text against string), and is reflexive, antisymmetric, transitive and congruent within each kind class, for every pair and triple of the boundary-value domain; every pair is exported and compare.Compare plus the six WHERE comparison operators are executed on the real Go values (exhaustive over the domain).",
+   tech="TLA+ specification (GoNum: rank-based value model, CodeCmp as coded) model-checked with TLC over all pairs/triples; every exported pair replayed into compare.Compare and WHERE on real Go values",
+   note="Exhaustive over the stated finite domain only (31 boundary points x 12 kinds + 11 strings). Trusts TLC, the harness (which re-checks each %v text of the specification against fmt) and that float64 represents the points exactly."),
 }
 not_applicable = []
 m = {
